@@ -2,9 +2,10 @@ package rules
 
 import (
 	"fmt"
-	"strings"
+	"go/token"
 	"go/types"
 	"sort"
+	"strings"
 
 	"fqverif/fw"
 
@@ -75,8 +76,10 @@ func c18Lazy(r *fw.Run, p *fw.Program) {
 				default:
 					return
 				}
-				if g, ok := memRoot(addr).(*ssa.Global); ok && fw.FnPkgPath(l.body) != "" && g.Pkg != nil && g.Pkg.Pkg.Path() == l.body.Pkg.Pkg.Path() {
-					written[g] = true
+				for _, root := range memRoots(addr) {
+					if g, ok := root.(*ssa.Global); ok && fw.FnPkgPath(l.body) != "" && g.Pkg != nil && g.Pkg.Pkg.Path() == l.body.Pkg.Pkg.Path() {
+						written[g] = true
+					}
 				}
 			})
 		}
@@ -243,48 +246,15 @@ func c18Lazy(r *fw.Run, p *fw.Program) {
 // C18.cachekey: per-interpreter memo tables are stored and looked up under the same key
 
 func c18CacheKey(r *fw.Run, p *fw.Program) {
-	ru := r.Rule("C18.cachekey", "the map-typed memo fields of interp.Interp / interp.EvalInstance (parsed-include cache, include-seen set) are looked up and stored under the same key value within the loader: a module cached under one name is never served for a different name", 2)
-	owners := map[string]bool{"pkg/interp.Interp": true, "pkg/interp.EvalInstance": true}
-	type use struct {
-		ins   ssa.Instruction
-		key   ssa.Value
-		store bool
-	}
+	ru := r.Rule("C18.cachekey", "the map-typed memo fields of interp.Interp / interp.EvalInstance (parsed-include cache, include-seen set) are looked up and stored under the same key value within the loader (inline or through one-line getter/setter helpers): a module cached under one name is never served for a different name", 2)
 	for _, fn := range p.FqFunctions() {
 		if pkgRel(fn) != "pkg/interp" {
 			continue
 		}
-		uses := map[string][]use{}
-		mapField := func(m ssa.Value) string {
-			u, ok := m.(*ssa.UnOp)
-			if !ok {
-				return ""
-			}
-			fa, ok := u.X.(*ssa.FieldAddr)
-			if !ok {
-				return ""
-			}
-			pt, ok := fa.X.Type().Underlying().(*types.Pointer)
-			if !ok || !owners[shortType(pt.Elem())] {
-				return ""
-			}
-			if _, isMap := u.Type().Underlying().(*types.Map); !isMap {
-				return ""
-			}
-			return shortType(pt.Elem()) + "." + fieldNameOf(fa.X.Type(), fa.Field)
+		uses := map[string][]c18MemoEvent{}
+		for _, ev := range c18MemoEvents(p, fn) {
+			uses[ev.field] = append(uses[ev.field], ev)
 		}
-		fw.EachInstr(fn, func(ins ssa.Instruction) {
-			switch x := ins.(type) {
-			case *ssa.Lookup:
-				if f := mapField(x.X); f != "" {
-					uses[f] = append(uses[f], use{ins, x.Index, false})
-				}
-			case *ssa.MapUpdate:
-				if f := mapField(x.Map); f != "" {
-					uses[f] = append(uses[f], use{ins, x.Key, true})
-				}
-			}
-		})
 		for _, f := range fw.SortedKeys(uses) {
 			us := uses[f]
 			hasL, hasS := false, false
@@ -300,7 +270,7 @@ func c18CacheKey(r *fw.Run, p *fw.Program) {
 			}
 			same := true
 			for _, u := range us[1:] {
-				if c18StripConv(u.key) != c18StripConv(us[0].key) {
+				if c18Cell(c18StripConv(u.key), 0) != c18Cell(c18StripConv(us[0].key), 0) {
 					same = false
 				}
 			}
@@ -333,7 +303,7 @@ func c18StripConv(v ssa.Value) ssa.Value {
 // the same function (composite literal / new).
 
 func c18Shared(r *fw.Run, p *fw.Program) {
-	ru := r.Rule("C18.shared", "fields of the process-wide format descriptors (decode.Format, decode.Group, decode.Dependency) are stored only during package initialisation, by Registry.Format (which refuses after resolution), inside the resolve sync.Once closure, or on an object created in the same function: no decode mutates a descriptor other decodes share", 200)
+	ru := r.Rule("C18.shared", "fields of the process-wide format descriptors (decode.Format, decode.Group, decode.Dependency) are written (store, element store, in-place sort/reverse/copy of their slices) only during package initialisation, by Registry.Format (which refuses after resolution), inside the resolve sync.Once closure, or on an object created in the same function: no decode mutates a descriptor other decodes share", 200)
 	isDesc := func(t types.Type) string {
 		pt, ok := t.Underlying().(*types.Pointer)
 		if !ok {
@@ -371,6 +341,17 @@ func c18Shared(r *fw.Run, p *fw.Program) {
 				}
 			}
 			return descBase(x.X, depth+1)
+		case *ssa.UnOp:
+			// a slice / map value loaded from a descriptor field, written in place
+			if x.Op == token.MUL {
+				if fa, ok := x.X.(*ssa.FieldAddr); ok {
+					if d := isDesc(fa.X.Type()); d != "" {
+						return fa.X, d, fieldNameOf(fa.X.Type(), fa.Field) + "[*]"
+					}
+				}
+			}
+		case *ssa.Slice:
+			return descBase(x.X, depth+1)
 		}
 		return nil, "", ""
 	}
@@ -393,18 +374,24 @@ func c18Shared(r *fw.Run, p *fw.Program) {
 		return false
 	}
 	ord := map[string]int{}
+	summ := mutationSummaries(p)
+	initOnly := initOnlyFunctions(p)
+	allowedCtx := func(f *ssa.Function) bool {
+		top := fw.Top(f)
+		return top.Name() == "init" || strings.HasPrefix(top.Name(), "init#") || insideOnceDo(f) || fw.ShortFn(top) == "(*pkg/interp.Registry).Format" || initOnly[top] && f.Parent() == nil
+	}
 	for _, fn := range p.FqFunctions() {
-		fw.EachInstr(fn, func(ins ssa.Instruction) {
-			st, ok := ins.(*ssa.Store)
-			if !ok {
-				return
-			}
-			base, typ, field := descBase(st.Addr, 0)
+		if fn.TypeParams().Len() > 0 && len(fn.TypeArgs()) == 0 {
+			continue
+		}
+		for _, w := range writesIn(fn, summ) {
+			st := w.ins
+			base, typ, field := descBase(w.target, 0)
 			if base == nil {
-				return
+				continue
 			}
 			if fresh(base) {
-				return
+				continue
 			}
 			top := fw.Top(fn)
 			k := fw.ShortFn(fn) + "|" + typ + "." + field
@@ -417,10 +404,14 @@ func c18Shared(r *fw.Run, p *fw.Program) {
 				ru.Ok(key, p.Rel(st.Pos()), "inside the resolve sync.Once closure")
 			case fw.ShortFn(top) == "(*pkg/interp.Registry).Format":
 				ru.Ok(key, p.Rel(st.Pos()), "registration (refuses once groups are resolved: C18.once)")
+			case initOnly[top] && fn.Parent() == nil:
+				ru.Ok(key, p.Rel(st.Pos()), "registrar reachable only from package init functions (who-may-call checked)")
+			case fn.Parent() == nil && c18OnlyCalledFrom(p, fn, allowedCtx, 0):
+				ru.Ok(key, p.Rel(st.Pos()), "helper whose every caller is package initialisation, Registry.Format or the resolve sync.Once closure (who-may-call checked, never used as a value)")
 			default:
-				ru.Fail(key, p.Rel(st.Pos()), "stores into "+typ+"."+field+" of a registered format descriptor outside initialisation/registration: the descriptor is shared by every decode of the process, so one decode changes (and races with) another")
+				ru.Fail(key, p.Rel(st.Pos()), w.what+": writes "+typ+"."+field+" of a registered format descriptor outside initialisation/registration: the descriptor is shared by every decode of the process, so one decode changes (and races with) another")
 			}
-		})
+		}
 	}
 }
 
@@ -462,15 +453,15 @@ var c18StatefulTypes = map[string]string{
 
 // stateful interfaces: a package-level variable of these interface types holds a stateful object
 var c18StatefulIfaces = map[string]string{
-	"hash.Hash":                             "running hash state",
-	"hash.Hash32":                           "running hash state",
-	"hash.Hash64":                           "running hash state",
-	"crypto/cipher.Stream":                  "key stream position",
-	"crypto/cipher.BlockMode":               "chaining state",
+	"hash.Hash":               "running hash state",
+	"hash.Hash32":             "running hash state",
+	"hash.Hash64":             "running hash state",
+	"crypto/cipher.Stream":    "key stream position",
+	"crypto/cipher.BlockMode": "chaining state",
 	"golang.org/x/text/transform.Transformer": "stateful transformer",
-	"io.Reader":                             "reader with a cursor",
-	"io.ReadSeeker":                         "reader with a cursor",
-	"io.Writer":                             "writer",
+	"io.Reader":     "reader with a cursor",
+	"io.ReadSeeker": "reader with a cursor",
+	"io.Writer":     "writer",
 }
 
 func c18Stateful(r *fw.Run, p *fw.Program) {
@@ -605,7 +596,7 @@ func c18Mapper(r *fw.Run, p *fw.Program) {
 		if summ[fn][0] {
 			where := ""
 			for _, w := range writesIn(fn, summ) {
-				if root := memRoot(w.target); root == ssa.Value(fn.Params[0]) {
+				if c18HasRoot(w.target, fn.Params[0]) {
 					where = w.what + " at " + p.Rel(w.ins.Pos())
 					break
 				}
@@ -662,4 +653,27 @@ func c18TypeInGlobals(p *fw.Program, t types.Type) bool {
 		}
 	}
 	return false
+}
+
+// c18OnlyCalledFrom: fn is never used as a value and every static call site lies in a function accepted by ok
+// (or in another such helper, up to three levels).
+func c18OnlyCalledFrom(p *fw.Program, fn *ssa.Function, ok func(*ssa.Function) bool, depth int) bool {
+	sites := c18CallSites(p)[fn]
+	if len(sites) == 0 || depth > 3 {
+		return false
+	}
+	for _, s := range sites {
+		if s == nil {
+			return false
+		}
+		caller := s.Parent()
+		if ok(caller) {
+			continue
+		}
+		if caller.Parent() == nil && caller != fn && c18OnlyCalledFrom(p, caller, ok, depth+1) {
+			continue
+		}
+		return false
+	}
+	return true
 }
